@@ -268,6 +268,7 @@ def impl_diff(case):
     dt = np.dtype(case["dtype"])
     args, dense = [], []
     for sh, fill, fmt in zip(case["shapes"], case["fills"], case["formats"], strict=True):
+        fill = float("nan") if fill == "nan" else fill
         d = rng.integers(-3, 4, size=tuple(sh)).astype(np.float64) * 0.5
         mask = rng.random(tuple(sh)) < 0.5
         d = np.where(mask, d, fill)
@@ -276,6 +277,10 @@ def impl_diff(case):
         if dt.kind in "iub":
             d = np.where(mask, rng.integers(0 if dt.kind != "i" else -3, 4, size=tuple(sh)), int(fill))
         d = d.astype(dt)
+        if fmt == "dense":           # a plain ndarray operand of a mixed sparse / dense call
+            args.append(d)
+            dense.append(d)
+            continue
         x = sparse.COO.from_numpy(d, fill_value=dt.type(fill))
         if fmt == "gcxs":
             x = sparse.GCXS.from_coo(x)
@@ -299,7 +304,7 @@ def impl_diff(case):
     gd = got.todense() if hasattr(got, "todense") else np.asarray(got)
     same = gd.shape == want.shape and gd.dtype == want.dtype and \
         bool(np.array_equal(gd, want, equal_nan=want.dtype.kind in "fc"))
-    fills = [dt.type(f) for f in case["fills"]]
+    fills = [dt.type(float("nan") if f == "nan" else f) for f in case["fills"]]
     with np.errstate(all="ignore"):
         wf = uf(*fills)
     fill_ok = True
@@ -955,6 +960,19 @@ def gen_diff_cases(tier, rng):
         shapes[0] = full if rng.random() < 0.5 else shapes[0]
         out.append({"ufunc": uf, "dtype": dt, "shapes": shapes, "fills": [rng.choice([0, 0, 1, 2]) for _ in range(k)],
                     "formats": [rng.choice(["coo", "gcxs", "dok"]) for _ in range(k)], "seed": i})
+    # mixed sparse / dense-ndarray calls whose func(fill, dense) is uniformly NaN: a NaN-filled sparse result exists and is
+    # returned (the fill-value array must be compared NaN-aware; seeded C01-m6: plain == raised ValueError / densified)
+    for j in range(40 if tier == "quick" else 200):
+        uf = rng.choice(["add", "subtract", "multiply"])
+        dt = rng.choice(["float64", "float64", "float32"])
+        full = [rng.choice((2, 3)) for _ in range(rng.choice([1, 2, 3]))]
+        other = full if rng.random() < 0.4 else full[rng.randint(0, len(full) - 1):]
+        fmt = rng.choice(["coo", "gcxs", "dok"])
+        if rng.random() < 0.5:
+            shapes, fills, formats = [full, other], ["nan", 1], [fmt, "dense"]
+        else:
+            shapes, fills, formats = [other, full], [1, "nan"], ["dense", fmt]
+        out.append({"ufunc": uf, "dtype": dt, "shapes": shapes, "fills": fills, "formats": formats, "seed": n + j})
     return out
 
 
